@@ -436,3 +436,9 @@ Proof.
   - rewrite W1, W2. intros H3 cx cy Ex Ey. apply Hw; auto; rewrite ?Ex, ?Ey; unfold qN at 3; cbn; ring.
   - exists a, b. split; [exact E|]. exact (undoes_zero M0 N0 U).
 Qed.
+
+(* the frequency vector of the upsampling kernels is congruent to the index *)
+Lemma np_freq_cong n k : 0 < n -> (np_freq n k mod Z.of_nat n = Z.of_nat k mod Z.of_nat n)%Z.
+Proof.
+  intros Hn. unfold np_freq. rewrite Zminus_mod_idemp_l. f_equal. lia.
+Qed.
